@@ -309,6 +309,7 @@ double Integrate_MC_Vegas(std::function<double(std::vector<double>&, const doubl
 	std::mt19937 PRNG(rd());
 
 	int ndim = region.size() / 2;
+	x.resize(ndim);	  // the integrand receives a point with exactly ndim coordinates
 	if(init <= 0)
 	{
 		mds = ndo = 1;
